@@ -593,7 +593,9 @@ pub fn run(ctx: &Ctx, id: &str) -> i32 {
                 if id == "C07" && k % 2 == 0 {
                     return Cleanup::plain();
                 }
-                let v = variant.wrapping_add(i as u64 * 7919);
+                // a pseudo-random but reproducible choice per (scenario, step): every combination of behaviours of consecutive
+                // clean-ups occurs (an arithmetic progression here made "the same dangling receipt twice in a row" impossible)
+                let v = fnv(&[variant.to_le_bytes(), (i as u64).to_le_bytes()].concat()) >> 8;
                 Cleanup {
                     pending: match v % 4 {
                         0 => None,
